@@ -90,6 +90,20 @@ func variants(d doc) []doc {
 		if s.Elem != nil && s.Elem.Kind == "ref" {
 			refd[s.Elem.Ref] = true
 		}
+		for _, a := range s.Alts {
+			refd[a] = true
+		}
+		for _, pt := range s.Parts {
+			if pt.Kind == "ref" {
+				refd[pt.Ref] = true
+			}
+			if pt.Obj != nil {
+				walk(*pt.Obj)
+			}
+		}
+		if s.Elem != nil && s.Elem.Obj != nil {
+			walk(*s.Elem.Obj)
+		}
 		for _, p := range s.Props {
 			if p.T.Kind == "ref" {
 				refd[p.T.Ref] = true
